@@ -190,6 +190,17 @@ CHECKS = {
             'Trusted: vf/props/c20.py Sched (one runnable thread at a time). Pre-emption inside glom bytecode is only '
             'sampled (free sub-check). Bounds: pairs with <= 4 yield points each, triples with 2 each (every 7th triple in the quick tier).',
             'DESIGN.md section 4 / C20'),
+    'C06': ('Hypothesis-generated call histories (model-based: pool of (target, spec) pairs from eight grammars; call / re-use the '
+            'same spec object / flood the path memo incl. 10 050 strings / toggle PATH_STAR / register / Glommer register / '
+            'Spec.glom) with a cold-vs-warm metamorphic oracle: every outcome is compared with the same call made first in a '
+            'pristine process',
+            'Generated histories with two oracles: (a) frame - structure-and-identity snapshots of target, spec object and '
+            'caller scope mapping are identical before and after every call; (b) history independence - the canonical outcome '
+            '(value structure, or error class and message) equals that of a forked child of a fresh interpreter that imported '
+            'glom and never called it, under the same PATH_STAR value and registrations.',
+            'Trusted: vf/cold.py (pristine reference server), canonicalisation in cold.canon_outcome. Module-level registrations '
+            'are of throw-away classes; meaningful registrations go to a per-history Glommer. Bounds: <= 12 steps, pool <= 4.',
+            'DESIGN.md section 4 / C06'),
 }
 
 NOT_YET = 'check not built yet in this session (design in DESIGN.md section 4); will be claimed once its check is quiet on the unchanged tree'
